@@ -536,6 +536,7 @@ func extra2C07(c *Ctx) {
 	c.Rule("C07-R12", "forking a prefix into a slot leaves nothing of the slot's previous contents: in Causal.CopyPrefix the loop that drops the destination sequence from cells iterates over all cells or over the destination's own recorded range (never only the source's), so a fork into a used slot cannot keep stale entries visible")
 	n := ruleRemovalDomain(c, "C07-R12", map[string]bool{"Causal.CopyPrefix": true})
 	c.Expect("C07-R12", "membership-removal loops in CopyPrefix", n, 1)
+	ruleRemoveRefusal(c, "C07-R13")
 }
 
 // evalBool evaluates a boolean expression over the given variables (!, &&, ||, parentheses,
@@ -604,8 +605,18 @@ func ruleChunkedKeepsData(c *Ctx, rule string) {
 		flags, isC := core.ConstInt(info, call.Args[1])
 		ok := isC && flags&(0x200|0x400) == 0 // O_TRUNC | O_APPEND on linux
 		if !isC {
-			// not a constant: fall back to the names mentioned
+			// not a constant: look at everything that is ever assigned to the flag variable
 			ok = !mentionsSel(call.Args[1], "O_TRUNC") && !mentionsSel(call.Args[1], "O_APPEND")
+			g := c.G(f)
+			for _, id := range identsOf(call.Args[1]) {
+				if v, isV := info.Uses[id].(*types.Var); isV && !v.IsField() {
+					for _, as := range g.AssignsTo(v) {
+						if mentionsSel(as.Node, "O_TRUNC") || mentionsSel(as.Node, "O_APPEND") {
+							ok = false
+						}
+					}
+				}
+			}
 		}
 		c.Check(rule, f.Key()+" open keeps existing chunks", c.Pos(call), ok, "opening the blob with O_TRUNC/O_APPEND wipes or misplaces chunks a previous attempt stored and Pull will not fetch again: the file reaches full size with holes")
 	}
@@ -1766,4 +1777,550 @@ func extra3C17(c *Ctx) {
 		}
 	}
 	c.Check("C17-R7", cb.Key()+" continues only after a successful write, stops on a closed channel", c.Pos(cb.Lit), okRet && nTrue >= 1 && closed, why)
+}
+
+// ---------------------------------------------------------------------------- C03-R14
+
+func init() {
+	prev := registry["C03"].Run
+	registry["C03"].Run = func(c *Ctx) { prev(c); extra3C03(c) }
+}
+
+// wrapsSentinel: e is the sentinel itself or fmt.Errorf whose %w verb is applied to it.
+func wrapsSentinel(info *types.Info, e ast.Expr, sentinel types.Object) bool {
+	e = ast.Unparen(e)
+	if id, ok := e.(*ast.Ident); ok {
+		return info.Uses[id] == sentinel
+	}
+	call, ok := e.(*ast.CallExpr)
+	if !ok || core.CalleeName(info, call) != "fmt.Errorf" || len(call.Args) < 2 {
+		return false
+	}
+	format, isS := core.ConstString(info, call.Args[0])
+	if !isS {
+		return false
+	}
+	// map verbs to arguments (no explicit argument indexes in this code base)
+	arg := 1
+	for i := 0; i < len(format); i++ {
+		if format[i] != '%' {
+			continue
+		}
+		i++
+		for i < len(format) && strings.ContainsRune("+-# 0123456789.", rune(format[i])) {
+			i++
+		}
+		if i >= len(format) {
+			break
+		}
+		if format[i] == '%' {
+			continue
+		}
+		if format[i] == '*' {
+			arg++
+			continue
+		}
+		if format[i] == 'w' && arg < len(call.Args) {
+			if id, ok := ast.Unparen(call.Args[arg]).(*ast.Ident); ok && info.Uses[id] == sentinel {
+				return true
+			}
+		}
+		arg++
+	}
+	return false
+}
+
+func extra3C03(c *Ctx) {
+	c.Rule("C03-R14", "the mismatch reported by verifyBlob is the mismatch PullModel reacts to: PullModel removes a blob on errors.Is(err, S) for a package-level sentinel S, and every error verifyBlob returns on its digest-mismatch edge is S itself or fmt.Errorf with the %w verb applied to S (with %s/%v the sentinel is not wrapped, the corrupt blob stays under its final name and the next pull trusts it as a cache hit)")
+	info := c.P.Pkgs["server"].TypesInfo
+	pm := c.Fn("C03-R14", "server", "PullModel")
+	vb := c.Fn("C03-R14", "server", "verifyBlob")
+	if pm == nil || vb == nil {
+		return
+	}
+	// the sentinel PullModel tests after verifyBlob
+	var sentinel types.Object
+	pg := c.G(pm)
+	for _, v := range pg.FindCalls("server.verifyBlob") {
+		ev := core.ResultVar(info, v.Top, v.Node.(*ast.CallExpr), 0)
+		for _, call := range core.Calls(pm.Body, true) {
+			if core.CalleeName(info, call) == "errors.Is" && len(call.Args) == 2 && ev != nil && core.UsesObj(info, call.Args[0], ev) {
+				if id, ok := ast.Unparen(call.Args[1]).(*ast.Ident); ok {
+					if vv, isV := info.Uses[id].(*types.Var); isV && vv.Parent() == vv.Pkg().Scope() {
+						sentinel = vv
+					}
+				}
+			}
+		}
+	}
+	if sentinel == nil {
+		c.Undecided("C03-R14", "anchor:errors.Is(err of verifyBlob, sentinel) in PullModel", "-", "anchor lost")
+		return
+	}
+	g := c.G(vb)
+	dp := paramAt(vb, 0)
+	n := 0
+	for _, cb := range g.CondBlocks() {
+		be, ok := ast.Unparen(cb.Cond).(*ast.BinaryExpr)
+		if !ok || (be.Op != token.NEQ && be.Op != token.EQL) || !(core.UsesObj(info, be.X, dp) || core.UsesObj(info, be.Y, dp)) {
+			continue
+		}
+		mis := 0
+		if be.Op == token.EQL {
+			mis = 1
+		}
+		for _, ex := range g.Walk(core.StartOf(cb.B.Succs[mis]), func(ast.Node, core.Loc) bool { return false }) {
+			if ex.Return == nil || len(ex.Return.Results) != 1 {
+				continue
+			}
+			n++
+			r := g.ReturnedExpr(ex, 0)
+			c.Check("C03-R14", vb.Key()+" mismatch return wraps "+sentinel.Name(), c.Pos(ex.Return), wrapsSentinel(info, r, sentinel), "returned "+core.ExprString(r)+": errors.Is(err, "+sentinel.Name()+") in PullModel is false for it, so the corrupt blob is not removed")
+		}
+	}
+	c.Expect("C03-R14", "mismatch returns of verifyBlob", n, 1)
+}
+
+// ---------------------------------------------------------------------------- C05-R8 / R9
+
+func init() {
+	prev := registry["C05"].Run
+	registry["C05"].Run = func(c *Ctx) { prev(c); extra3C05(c) }
+}
+
+func extra3C05(c *Ctx) {
+	info := c.P.Pkgs["fs/ggml"].TypesInfo
+	c.Rule("C05-R8", "writer and reader lay the file out with the alignment that is stored in it: in WriteGGUF and in gguf.Decode the alignment variable is assigned the bare result of KV.Uint(\"general.alignment\", default) — not a clamped, rounded or otherwise transformed value (the key is written as given, so a writer that lays out with max(stored, 32) and a reader that pads with the stored value disagree on every offset)")
+	for _, name := range []string{"WriteGGUF", "gguf.Decode"} {
+		f := c.Fn("C05-R8", "fs/ggml", name)
+		if f == nil {
+			continue
+		}
+		n := 0
+		ast.Inspect(f.Body, func(x ast.Node) bool {
+			as, ok := x.(*ast.AssignStmt)
+			if !ok || len(as.Rhs) != 1 {
+				return true
+			}
+			for _, call := range core.CallsTo(info, as.Rhs[0], false, "fs/ggml.KV.Uint") {
+				k, isS := core.ConstString(info, call.Args[0])
+				if !isS || !strings.Contains(k, "alignment") {
+					continue
+				}
+				n++
+				c.Check("C05-R8", f.Key()+" alignment is the stored value", c.Pos(as), ast.Unparen(as.Rhs[0]) == ast.Expr(call), "the layout alignment is "+core.ExprString(as.Rhs[0])+", not the value of the key itself")
+			}
+			return true
+		})
+		c.Expect("C05-R8", "alignment reads in "+name, n, 1)
+	}
+
+	c.Rule("C05-R9", "arrays up to and including the collect limit are decoded with their values (documented contract of ggml.Decode: \"less than or equal to maxArraySize\"): canCollectArray compares the array size with the limit inclusively, or the limit is negative")
+	if f := c.Fn("C05-R9", "fs/ggml", "containerGGUF.canCollectArray"); f != nil {
+		rs := core.SoleReturn(info, f.Body)
+		ok := false
+		if rs != nil && len(rs.Results) == 1 {
+			size := paramAt(f, 0)
+			incl, neg := false, false
+			var walk func(e ast.Expr)
+			walk = func(e ast.Expr) {
+				be, isB := ast.Unparen(e).(*ast.BinaryExpr)
+				if !isB {
+					return
+				}
+				if be.Op == token.LOR {
+					walk(be.X)
+					walk(be.Y)
+					return
+				}
+				if _, y, op, okO := core.Orient(be, func(x ast.Expr) bool { return isIdentOf(info, x, size) }); okO && selName(y) == "maxArraySize" && op == token.LEQ {
+					incl = true
+				}
+				if selName(be.X) == "maxArraySize" && be.Op == token.LSS {
+					if v, isC := core.ConstInt(info, be.Y); isC && v == 0 {
+						neg = true
+					}
+				}
+			}
+			walk(rs.Results[0])
+			ok = incl && neg
+		}
+		c.Check("C05-R9", f.Key()+" collects sizes <= limit, everything for a negative limit", c.Pos(f.Decl), ok, "canCollectArray must be `maxArraySize < 0 || size <= maxArraySize`: with a strict comparison an array of exactly the limit (1024 by default) decodes with its size but without its values")
+	}
+	// the doc comment that states the contract is still there
+	if f := c.Fn("C05-R9", "fs/ggml", "Decode"); f != nil && f.Decl != nil {
+		doc := ""
+		if f.Decl.Doc != nil {
+			doc = strings.Join(strings.Fields(f.Decl.Doc.Text()), " ")
+		}
+		c.Check("C05-R9", f.Key()+" documents the inclusive limit", c.Pos(f.Decl), strings.Contains(doc, "less than or equal to maxArraySize"), "the rule is derived from Decode's documented contract; the doc comment no longer states it")
+	}
+}
+
+// ---------------------------------------------------------------------------- C04-R11
+
+func init() {
+	prev := registry["C04"].Run
+	registry["C04"].Run = func(c *Ctx) { prev(c); extra3C04(c) }
+}
+
+func extra3C04(c *Ctx) {
+	c.Rule("C04-R11", "a pull lists a model only when all its layers are there: in PullModel no failed verifyBlob and no failed downloadBlob can reach the write of the manifest (C03-R1/R2 re-checked here: a verification error that is stored and later overwritten, or tested on only one branch, lets the manifest be written next to a removed blob)")
+	f := c.Fn("C04-R11", "server", "PullModel")
+	if f == nil {
+		return
+	}
+	g := c.G(f)
+	writes := pullManifestWrite(c, g)
+	c.Expect("C04-R11", "manifest write in PullModel", len(writes), 1)
+	for _, w := range writes {
+		for _, name := range []string{"server.verifyBlob", "server.downloadBlob"} {
+			for i, h := range g.FindCalls(name) {
+				reach, checked := g.FailureReaches(h, w.Loc)
+				c.Check("C04-R11", f.Key()+" manifest write unreachable after a failed "+strings.TrimPrefix(name, "server.")+"#"+itoa(i+1), c.Pos(h.Node), checked && !reach, "the failure of this call can reach the manifest write")
+			}
+		}
+	}
+}
+
+// ---------------------------------------------------------------------------- C08-R9 / R10
+
+func init() {
+	prev := registry["C08"].Run
+	registry["C08"].Run = func(c *Ctx) { prev(c); extra3C08(c) }
+}
+
+func extra3C08(c *Ctx) {
+	info := c.P.Pkgs[blobPkg].TypesInfo
+	c.Rule("C08-R9", "a successful Import has installed the bytes it verified: every success return of DiskCache.Import lies behind a successful os.Rename of the temp file onto the blob's final name (an existing file of the same name proves nothing: Get only looks at its size being non-zero, and a dead writer leaves exactly such files)")
+	if f := c.Fn("C08-R9", blobPkg, "DiskCache.Import"); f != nil {
+		g := c.G(f)
+		rn := g.FindCalls("os.Rename")
+		c.Expect("C08-R9", "os.Rename calls in Import", len(rn), 1)
+		n := 0
+		for _, ex := range g.Returns() {
+			if g.ReturnKind(ex) != core.RetSuccess {
+				continue
+			}
+			n++
+			ok := false
+			for _, r := range rn {
+				if s, _ := g.OnSuccessOf(r, ex.Loc); s {
+					ok = true
+				}
+			}
+			c.Check("C08-R9", f.Key()+" success return#"+itoa(n)+" behind the rename", c.Pos(ex.Return), ok, "Import reports success on a path that did not rename the verified temp file into place")
+		}
+		c.Expect("C08-R9", "success returns of Import", n, 1)
+	}
+
+	c.Rule("C08-R10", "one way from a name to its manifest file: nameToPath is called only by manifestPath, and Link, Resolve and Unlink each obtain the manifest's path from manifestPath applied to their name parameter (a direct join is case-sensitive: a name linked in one spelling would not be unlinked or resolved under another)")
+	nCalls := 0
+	for _, fn := range c.P.FuncsOf(blobPkg) {
+		for _, call := range core.Calls(fn.Body, true) {
+			if core.CalleeName(info, call) == blobPkg+".nameToPath" {
+				nCalls++
+				root := fn.Name
+				if fn.Parent != nil {
+					continue // counted with its declaration
+				}
+				c.Check("C08-R10", fn.Key()+" call:nameToPath", c.Pos(call), root == "DiskCache.manifestPath", "nameToPath may only be used by manifestPath; other callers get a case-sensitive path")
+			}
+		}
+	}
+	c.Expect("C08-R10", "nameToPath calls in package blob", nCalls, 1)
+	for _, name := range []string{"DiskCache.Link", "DiskCache.Resolve", "DiskCache.Unlink"} {
+		f := c.Fn("C08-R10", blobPkg, name)
+		if f == nil {
+			continue
+		}
+		ok := false
+		var pathVar types.Object
+		g := c.G(f)
+		for _, h := range g.FindCalls(blobPkg + ".DiskCache.manifestPath") {
+			call := h.Node.(*ast.CallExpr)
+			if len(call.Args) == 1 && isIdentOf(info, call.Args[0], paramAt(f, 0)) {
+				ok = true
+				pathVar = core.ResultVar(info, h.Top, call, 0)
+			}
+		}
+		// and that path is what the file operations use
+		used := false
+		if pathVar != nil {
+			for _, call := range core.Calls(f.Body, true) {
+				switch core.CalleeName(info, call) {
+				case "os.Remove", "os.Open", "os.OpenFile", "os.MkdirAll", "os.Stat", blobPkg + ".readAndSum", blobPkg + ".DiskCache.copyNamedFile":
+					for _, a := range call.Args {
+						if core.UsesObj(info, a, pathVar) {
+							used = true
+						}
+					}
+				}
+			}
+		}
+		c.Check("C08-R10", f.Key()+" addresses the manifest through manifestPath(name)", c.Pos(f.Decl), ok && used, "the manifest file must be the one manifestPath(name) returns")
+	}
+}
+
+// ---------------------------------------------------------------------------- C14-R9
+
+func init() {
+	prev := registry["C14"].Run
+	registry["C14"].Run = func(c *Ctx) { prev(c); extra3C14(c) }
+}
+
+func extra3C14(c *Ctx) {
+	c.Rule("C14-R9", "flushPending hands the text over or says it could not: after the pending pieces were taken (and reset), a `return true` with text in hand lies only on the arm that sent the text on the responses channel; the select has no default arm and nothing is put back into pendingResponses (removeSequence ignores the result of its final flush and closes the channel, so re-queued text is lost)")
+	for _, rel := range []string{ollamaRunnerPkg, llamaRunnerPkg} {
+		f := c.Fn("C14-R9", rel, "flushPending")
+		if f == nil {
+			continue
+		}
+		info := f.Info()
+		g := c.G(f)
+		var sel *ast.SelectStmt
+		ast.Inspect(f.Body, func(n ast.Node) bool {
+			if s, ok := n.(*ast.SelectStmt); ok {
+				sel = s
+			}
+			return true
+		})
+		if sel == nil {
+			c.Undecided("C14-R9", "anchor:select in "+rel+" flushPending", "-", "anchor lost")
+			continue
+		}
+		hasDefault, sendArm := false, false
+		var sendClause *ast.CommClause
+		for _, cl := range sel.Body.List {
+			cc := cl.(*ast.CommClause)
+			if cc.Comm == nil {
+				hasDefault = true
+				continue
+			}
+			if ss, ok := cc.Comm.(*ast.SendStmt); ok && selName(ss.Chan) == "responses" {
+				sendArm = true
+				sendClause = cc
+			}
+		}
+		// returns of true after the select was reached lie in the send arm
+		okRet := true
+		for _, ex := range g.Returns() {
+			if core.ExprString(ex.Return.Results[0]) != "true" || ex.Return.Pos() < sel.Pos() {
+				continue
+			}
+			if sendClause == nil || !within(sendClause, ex.Return) {
+				okRet = false
+			}
+		}
+		// no re-queue: pendingResponses is only reset (assigned an empty literal), never appended to
+		requeue := false
+		ast.Inspect(f.Body, func(n ast.Node) bool {
+			as, ok := n.(*ast.AssignStmt)
+			if !ok {
+				return true
+			}
+			for i, l := range as.Lhs {
+				if selName(l) == "pendingResponses" && i < len(as.Rhs) {
+					if cl, isCl := ast.Unparen(as.Rhs[i]).(*ast.CompositeLit); !isCl || len(cl.Elts) != 0 {
+						if id, isID := ast.Unparen(as.Rhs[i]).(*ast.Ident); !isID || id.Name != "nil" {
+							requeue = true
+						}
+					}
+				}
+			}
+			return true
+		})
+		_ = info
+		c.Check("C14-R9", f.Key()+" blocks until the text is sent or the request quits", c.Pos(sel), sendArm && !hasDefault && okRet && !requeue, "flushPending must not report success without having sent the text (no default arm, no re-queue)")
+	}
+}
+
+// ---------------------------------------------------------------------------- C13-R7
+
+func init() {
+	prev := registry["C13"].Run
+	registry["C13"].Run = func(c *Ctx) { prev(c); extra3C13(c) }
+}
+
+func extra3C13(c *Ctx) {
+	c.Rule("C13-R7", "the legacy parser drops no input: in ParseNameBare a part of the name receives the piece cut off the input at most once on every path (path counting of the multi-value assignments from cutPromised per field) — a second cut into the same part silently discards the first piece, so `model:7b:latest` would be accepted as `model:7b`, print differently and address another manifest")
+	f := c.Fn("C13-R7", modelNamePkg, "ParseNameBare")
+	if f == nil {
+		return
+	}
+	info := f.Info()
+	g := c.G(f)
+	fields := map[string]bool{}
+	ast.Inspect(f.Body, func(n ast.Node) bool {
+		as, ok := n.(*ast.AssignStmt)
+		if !ok || len(as.Rhs) != 1 || len(as.Lhs) < 2 {
+			return true
+		}
+		if len(core.CallsTo(info, as.Rhs[0], false, modelNamePkg+".cutPromised")) != 1 {
+			return true
+		}
+		for _, l := range as.Lhs {
+			if fv := core.FieldVar(info, l); fv != nil {
+				fields[fv.Name()] = true
+			}
+		}
+		return true
+	})
+	c.Expect("C13-R7", "parts filled from cutPromised in ParseNameBare", len(fields), 3)
+	for name := range fields {
+		_, exits := g.CountPaths(g.Entry(), func(n ast.Node) int {
+			as, ok := n.(*ast.AssignStmt)
+			if !ok || len(as.Rhs) != 1 || len(core.CallsTo(info, as.Rhs[0], false, modelNamePkg+".cutPromised")) != 1 {
+				return 0
+			}
+			k := 0
+			for _, l := range as.Lhs {
+				if fv := core.FieldVar(info, l); fv != nil && fv.Name() == name {
+					k++
+				}
+			}
+			return k
+		}, nil)
+		ok := len(exits) > 0
+		for _, m := range exits {
+			if m&4 != 0 {
+				ok = false
+			}
+		}
+		c.Check("C13-R7", f.Key()+" part "+name+" cut from the input at most once", c.Pos(f.Decl), ok, "on some path the part is assigned the result of cutPromised twice: the earlier piece of the input is dropped")
+	}
+}
+
+// ---------------------------------------------------------------------------- C11-R9 / R10
+
+func init() {
+	prev := registry["C11"].Run
+	registry["C11"].Run = func(c *Ctx) { prev(c); extra3C11(c) }
+	registry["C11"].Pkgs = append(registry["C11"].Pkgs, "envconfig")
+}
+
+func extra3C11(c *Ctx) {
+	m := newSchedModel(c, "C11-R9")
+	info := m.info
+	c.Rule("C11-R9", "the memory other models leave free is computed over all of them: updateFreeSpace collects every value of the loaded map under loadedMu and its loop over the collected runners adds each runner's predicted VRAM for every GPU with the runner's refMu taken unconditionally — no continue/break in that loop, no TryLock (a runner skipped because its lock happened to be held is treated as using no memory and the next model is started beside it)")
+	if f := m.lc.fn("Scheduler.updateFreeSpace"); f != nil {
+		var list types.Object
+		okCollect := false
+		for _, rl := range rangeLoops(f) {
+			if core.FieldVar(info, rl.Stmt.X) != m.fLoaded {
+				continue
+			}
+			if len(rl.Stmt.Body.List) == 1 {
+				if as, ok := rl.Stmt.Body.List[0].(*ast.AssignStmt); ok && len(core.CallsTo(info, as, false, "builtin.append")) == 1 {
+					if vid, isV := rl.Stmt.Value.(*ast.Ident); isV && core.UsesObj(info, as.Rhs[0], info.Defs[vid]) {
+						if id, isID := as.Lhs[0].(*ast.Ident); isID {
+							list = info.ObjectOf(id)
+							okCollect = m.lc.heldAt(as).HasClass(m.fLoadedMu)
+						}
+					}
+				}
+			}
+		}
+		c.Check("C11-R9", f.Key()+" collects every loaded runner under loadedMu", c.Pos(f.Decl), okCollect, "")
+		n := 0
+		for _, rl := range rangeLoops(f) {
+			if list == nil || rl.Over != list {
+				continue
+			}
+			n++
+			adds := 0
+			bad := ""
+			ast.Inspect(rl.Stmt.Body, func(x ast.Node) bool {
+				switch y := x.(type) {
+				case *ast.BranchStmt:
+					bad = y.Tok.String() + " at " + c.Pos(y)
+				case *ast.ReturnStmt:
+					bad = "return at " + c.Pos(y)
+				case *ast.CallExpr:
+					if strings.HasSuffix(core.CalleeName(info, y), ".TryLock") {
+						bad = "TryLock at " + c.Pos(y)
+					}
+				case *ast.AssignStmt:
+					if y.Tok == token.ADD_ASSIGN && len(core.CallsTo(info, y.Rhs[0], false, "llm.LlamaServer.EstimatedVRAMByGPU")) == 1 {
+						adds++
+						// guarded only by the runner's handle being there
+						for _, a := range c.G(f).AtomsAt(c.G(f).Locate(y)) {
+							if x, _, isNil := core.IsNilCheck(info, a.Expr); isNil && core.FieldVar(info, x) == m.fLlama {
+								continue
+							}
+							bad = "the addition is conditional on " + core.ExprString(a.Expr)
+						}
+					}
+				}
+				return true
+			})
+			c.Check("C11-R9", f.Key()+" every collected runner's prediction is added", c.Pos(rl.Stmt), adds == 1 && bad == "", bad)
+		}
+		c.Expect("C11-R9", "loops over the collected runners in updateFreeSpace", n, 1)
+	}
+
+	c.Rule("C11-R10", "the configured maximum is read the way every other setting is: in package envconfig the process environment is read only by Var (which trims blanks and quotes) — no other function calls os.Getenv / os.LookupEnv / os.Environ — and MaxRunners is Uint(\"OLLAMA_MAX_LOADED_MODELS\", …) whose closure parses Var(key) (a quoted \"1\" that fails to parse yields 0, and the scheduler then replaces the limit by its automatic default)")
+	ep := c.P.Pkgs["envconfig"]
+	if ep == nil {
+		c.Undecided("C11-R10", "anchor:package envconfig", "-", "package not loaded")
+		return
+	}
+	einfo := ep.TypesInfo
+	nEnv := 0
+	for _, fn := range c.P.FuncsOf("envconfig") {
+		for _, call := range core.Calls(fn.Body, false) {
+			switch core.CalleeName(einfo, call) {
+			case "os.Getenv", "os.LookupEnv", "os.Environ":
+				nEnv++
+				root := fn
+				for root.Parent != nil {
+					root = root.Parent
+				}
+				c.Check("C11-R10", fn.Key()+" call:"+core.CalleeName(einfo, call), c.Pos(call), root.Name == "Var", "the environment must be read through Var so that every typed accessor sees the same normalised value")
+			}
+		}
+	}
+	c.Expect("C11-R10", "reads of the process environment in envconfig", nEnv, 1)
+	if f := c.P.LookupFunc("envconfig", "Uint"); f != nil {
+		ok := false
+		for _, l := range f.Lits() {
+			for _, call := range core.CallsTo(einfo, l.Body, false, "envconfig.Var") {
+				if len(call.Args) == 1 && isIdentOf(einfo, call.Args[0], paramAt(f, 0)) {
+					lg := c.G(l)
+					for _, pc := range core.CallsTo(einfo, l.Body, false, "strconv.ParseUint") {
+						// the parsed string is the Var result (directly or through the local it was assigned to)
+						for _, x := range expand(lg, pc.Args[0], 2) {
+							if len(core.CallsTo(einfo, x, false, "envconfig.Var")) == 1 {
+								ok = true
+							}
+						}
+					}
+				}
+			}
+		}
+		c.Check("C11-R10", f.Key()+" parses Var(key)", c.Pos(f.Decl), ok, "Uint must parse the value Var returns for its key")
+	} else {
+		c.Undecided("C11-R10", "anchor:envconfig.Uint", "-", "anchor lost")
+	}
+	// MaxRunners = Uint("OLLAMA_MAX_LOADED_MODELS", …)
+	okMR := false
+	for _, file := range ep.Syntax {
+		ast.Inspect(file, func(n ast.Node) bool {
+			vs, ok := n.(*ast.ValueSpec)
+			if !ok {
+				return true
+			}
+			for i, nm := range vs.Names {
+				if nm.Name == "MaxRunners" && i < len(vs.Values) {
+					if call, isC := ast.Unparen(vs.Values[i]).(*ast.CallExpr); isC && core.CalleeName(einfo, call) == "envconfig.Uint" {
+						if k, isS := core.ConstString(einfo, call.Args[0]); isS && k == "OLLAMA_MAX_LOADED_MODELS" {
+							okMR = true
+						}
+					}
+				}
+			}
+			return true
+		})
+	}
+	c.Check("C11-R10", "envconfig.MaxRunners = Uint(OLLAMA_MAX_LOADED_MODELS)", "-", okMR, "")
 }
